@@ -605,6 +605,9 @@ impl Kanata {
     }
 
     fn do_live_reload(&mut self, _tx: &Option<Sender<ServerMessage>>) -> Result<()> {
+        #[cfg(kanata_verif)]
+        crate::verif_seam::LIVE_RELOAD_ATTEMPTS
+            .fetch_add(1, ::core::sync::atomic::Ordering::Relaxed);
         let cfg = match cfg::new_from_file(&self.cfg_paths[self.cur_cfg_idx]) {
             Ok(c) => c,
             Err(e) => {
